@@ -16,6 +16,7 @@ import (
 	"os"
 	"os/exec"
 	"path/filepath"
+	"sort"
 	"strings"
 	"time"
 )
@@ -43,7 +44,7 @@ type replayFile struct {
 	Note       string                 `json:"note"`
 }
 
-func (p *Prog) replay(o *Oblig, dir, repo, verif string) ReplayResult {
+func (p *Prog) replay(o *Oblig, dir, repo, verif, workdir string) ReplayResult {
 	rf := replayFile{Obligation: o.Name, Unit: o.Func, Kind: o.Kind, Status: o.Result.Status, Backends: o.Result.All, SolverOut: truncate(o.Result.Output, 4000)}
 	if o.Pos.IsValid() {
 		rf.At = fmt.Sprintf("%s:%d", o.Pos.Filename, o.Pos.Line)
@@ -55,7 +56,7 @@ func (p *Prog) replay(o *Oblig, dir, repo, verif string) ReplayResult {
 	path := filepath.Join(dir, name)
 	reproduced := false
 	if o.Result.Status == "sat" {
-		reproduced = p.concretize(o, &rf, repo, verif, path)
+		reproduced = p.concretize(o, &rf, repo, verif, path, workdir)
 	} else {
 		rf.Note = "the solver gave no model (" + o.Result.Status + "): the obligation could not be discharged on this tree"
 	}
@@ -216,39 +217,50 @@ func sliceFromModel(vals map[string]*big.Int, key string, n int) map[string]inte
 const replayBytes = 20
 
 // concretize turns the model into inputs for the committed replay test of the unit.
-func (p *Prog) concretize(o *Oblig, rf *replayFile, repo, verif, replayPath string) bool {
+func (p *Prog) concretize(o *Oblig, rf *replayFile, repo, verif, replayPath, workdir string) bool {
 	e := o.Enc
 	if e.Fn == nil {
 		rf.Note = "refuted contract-level lemma: there is no code to replay; the model is in the solver output"
-		rf.SolverOut = truncate(GetModel(o.Query(0), nil, filepath.Join(os.TempDir(), fmt.Sprintf("govc-model-%x", hashStr(o.Name))), 20), 6000)
+		rf.SolverOut = truncate(GetModel(o.Query(0), nil, filepath.Join(workdir, fmt.Sprintf("model-%x", hashStr(o.Name))), 20, o.Result.Backend), 6000)
 		return false
 	}
-	testSrc := filepath.Join(verif, "replay", strings.NewReplacer("(", "", ")", "", "*", "").Replace(e.Unit)+"_test.go")
-	if _, err := os.Stat(testSrc); err != nil {
+	clean := strings.NewReplacer("(", "", ")", "", "*", "").Replace(e.Unit)
+	testSrc := ""
+	cands := []string{clean}
+	if i := strings.LastIndex(clean, "."); i > 0 {
+		cands = append(cands, clean[:i]) // pkg.Type for methods, pkg for functions
+		if j := strings.Index(clean, "."); j > 0 && j < i {
+			cands = append(cands, clean[:j])
+		}
+	}
+	for _, c := range cands {
+		f := filepath.Join(verif, "replay", c+"_test.go")
+		if _, err := os.Stat(f); err == nil {
+			testSrc = f
+			break
+		}
+	}
+	if testSrc == "" {
 		rf.Note = "no replay test is committed for unit " + e.Unit + "; the model is attached in solver_output"
-		rf.SolverOut = truncate(GetModel(o.Query(0), nil, filepath.Join(os.TempDir(), fmt.Sprintf("govc-model-%x", hashStr(o.Name))), 20), 6000)
+		rf.SolverOut = truncate(GetModel(o.Query(0), nil, filepath.Join(workdir, fmt.Sprintf("model-%x", hashStr(o.Name))), 20, o.Result.Backend), 6000)
 		return false
 	}
 	// model query for the parameters (entry values)
 	mq := &modelQuery{}
-	h8 := "H_bv8_0"
-	needH8 := false
 	type pinfo struct {
 		name string
 		t    types.Type
 	}
 	var params []pinfo
+	factsFrom := len(e.facts)
 	for _, prm := range e.Fn.Params {
 		v := Val{"p_" + mangle(prm.Name()), p.W.SortOf(prm.Type())}
 		params = append(params, pinfo{prm.Name(), prm.Type()})
-		p.modelTermsFor(mq, prm.Name(), v, prm.Type(), h8, &needH8)
+		p.modelTermsFor(e, mq, prm.Name(), v, prm.Type(), 0)
 	}
-	q := o.Query(0)
-	if needH8 && !strings.Contains(q, "(declare-const H_bv8_0 ") {
-		q = strings.Replace(q, "(check-sat)", "(declare-const H_bv8_0 (Array Loc (_ BitVec 8)))\n(check-sat)", 1)
-	}
-	// extra terms registered by the unit (e.g. allocator state)
-	out := GetModel(q, mq.terms, filepath.Join(os.TempDir(), fmt.Sprintf("govc-model-%x", hashStr(o.Name))), 30)
+	// the loads above may have materialised entry heaps that the obligation's own query does not declare
+	q := o.queryAllDecls(factsFrom)
+	out := GetModel(q, mq.terms, filepath.Join(workdir, fmt.Sprintf("model-%x", hashStr(o.Name))), 30, o.Result.Backend)
 	if out == "" {
 		rf.Note = "could not obtain a model for the parameters"
 		return false
@@ -270,10 +282,11 @@ func (p *Prog) concretize(o *Oblig, rf *replayFile, repo, verif, replayPath stri
 	}
 	inputs := map[string]interface{}{}
 	for _, pi := range params {
-		inputs[pi.name] = p.inputFromModel(vals, pi.name, pi.t)
+		inputs[pi.name] = p.inputFromModel(vals, pi.name, pi.t, 0)
 	}
 	rf.Inputs = inputs
 	inputs["obligation"] = o.Name
+	inputs["unit"] = e.Unit
 	// run the committed replay test through an overlay
 	pkgDir := filepath.Dir(p.Fset.Position(e.Fn.Pos()).Filename)
 	rel, _ := filepath.Rel(repo, pkgDir)
@@ -296,7 +309,10 @@ func (p *Prog) concretize(o *Oblig, rf *replayFile, repo, verif, replayPath stri
 	return false
 }
 
-func (p *Prog) modelTermsFor(mq *modelQuery, key string, v Val, t types.Type, h8 string, needH8 *bool) {
+func (p *Prog) modelTermsFor(e *Enc, mq *modelQuery, key string, v Val, t types.Type, depth int) {
+	if depth > 4 {
+		return
+	}
 	switch u := t.Underlying().(type) {
 	case *types.Basic:
 		if u.Info()&types.IsInteger != 0 || u.Info()&types.IsBoolean != 0 {
@@ -304,18 +320,64 @@ func (p *Prog) modelTermsFor(mq *modelQuery, key string, v Val, t types.Type, h8
 		}
 	case *types.Slice:
 		if b, ok := u.Elem().Underlying().(*types.Basic); ok && b.Kind() == types.Uint8 {
-			*needH8 = true
-			mq.sliceTerms(key, v, h8, replayBytes)
+			h := e.heap(e.entry, "H_bv8", ArraySort(SLoc, BVSort(8)))
+			mq.sliceTerms(key, v, h.T, replayBytes)
 		}
 	case *types.Struct:
 		si := p.W.StructOf(t)
 		for _, f := range si.Fields {
-			p.modelTermsFor(mq, key+"."+f.Name, Val{app(f.Sel, v.T), f.Sort}, f.Type, h8, needH8)
+			p.modelTermsFor(e, mq, key+"."+f.Name, Val{app(f.Sel, v.T), f.Sort}, f.Type, depth+1)
+		}
+	case *types.Pointer:
+		mq.add(key+".nil", Eq(LRef(v), IntLit(0)).T)
+		// ghost fields declared on this pointer type
+		for _, gname := range sortedGhostFields(p.CS) {
+			gf := p.CS.GhostFields[gname]
+			gt, _, err := (&EvalCtx{e: e, spec: gf.Spec}).resolveType(gf.On)
+			if err != nil || gt == nil || !types.Identical(gt, t) {
+				continue
+			}
+			s, err := (&EvalCtx{e: e}).ghostFieldSort(gf)
+			if err != nil {
+				continue
+			}
+			h := e.heap(e.entry, "G_"+gname, ArraySort(SLoc, s))
+			gv := Select(h, v)
+			if s.IsArray() {
+				ks, _ := s.ArrayParts()
+				if ks.IsBV() {
+					for i := 0; i < replayBits; i++ {
+						mq.add(fmt.Sprintf("%s.%s.%d", key, gname, i), Select(gv, BV(ks.BVWidth(), uint64(i))).T)
+					}
+				}
+			} else {
+				mq.add(key+"."+gname, gv.T)
+			}
+		}
+		if _, isStruct := u.Elem().Underlying().(*types.Struct); isStruct {
+			if nt, ok := u.Elem().(*types.Named); ok && nt.Obj().Pkg() != nil && strings.HasPrefix(nt.Obj().Pkg().Path(), p.ModPath) {
+				sv := e.load(e.entry, v, u.Elem())
+				p.modelTermsFor(e, mq, key, sv, u.Elem(), depth+1)
+			}
 		}
 	}
 }
 
-func (p *Prog) inputFromModel(vals map[string]*big.Int, key string, t types.Type) interface{} {
+const replayBits = 128
+
+func sortedGhostFields(cs *Contracts) []string {
+	var ks []string
+	for k := range cs.GhostFields {
+		ks = append(ks, k)
+	}
+	sort.Strings(ks)
+	return ks
+}
+
+func (p *Prog) inputFromModel(vals map[string]*big.Int, key string, t types.Type, depth int) interface{} {
+	if depth > 4 {
+		return nil
+	}
 	switch u := t.Underlying().(type) {
 	case *types.Basic:
 		if v, ok := vals[key]; ok {
@@ -335,7 +397,37 @@ func (p *Prog) inputFromModel(vals map[string]*big.Int, key string, t types.Type
 		si := p.W.StructOf(t)
 		out := map[string]interface{}{}
 		for _, f := range si.Fields {
-			out[f.Name] = p.inputFromModel(vals, key+"."+f.Name, f.Type)
+			if x := p.inputFromModel(vals, key+"."+f.Name, f.Type, depth+1); x != nil {
+				out[f.Name] = x
+			}
+		}
+		return out
+	case *types.Pointer:
+		out := map[string]interface{}{}
+		if v, ok := vals[key+".nil"]; ok {
+			out["nil"] = v.Sign() != 0
+		}
+		for _, gname := range sortedGhostFields(p.CS) {
+			if v, ok := vals[key+"."+gname]; ok {
+				out[gname] = v.String()
+			}
+			if _, ok := vals[fmt.Sprintf("%s.%s.0", key, gname)]; ok {
+				var bs []bool
+				for i := 0; i < replayBits; i++ {
+					b := vals[fmt.Sprintf("%s.%s.%d", key, gname, i)]
+					bs = append(bs, b != nil && b.Sign() != 0)
+				}
+				out[gname] = bs
+			}
+		}
+		if _, isStruct := u.Elem().Underlying().(*types.Struct); isStruct {
+			if nt, ok := u.Elem().(*types.Named); ok && nt.Obj().Pkg() != nil && strings.HasPrefix(nt.Obj().Pkg().Path(), p.ModPath) {
+				if m, ok := p.inputFromModel(vals, key, u.Elem(), depth+1).(map[string]interface{}); ok {
+					for k, v := range m {
+						out[k] = v
+					}
+				}
+			}
 		}
 		return out
 	}
